@@ -388,10 +388,17 @@ fn apply(run: &mut Run, r: Req) -> Option<(String, String)> {
             }
         }
         Req::Close(s) => {
+            let first_and_empty = run.model.variants.len() == 1 && run.vids.is_empty() && run.model.variants[0].is_empty();
             let vid = match catch_unwind(AssertUnwindSafe(|| run.real.close(s))) {
                 Ok(v) => v,
                 Err(p) => return Some(("close-panicked".into(), vcommon::panic_message(&*p))),
             };
+            // the very first close with nothing pending: the statement allows "no new variant",
+            // the implementation creates an empty first variant; the model follows what happened
+            if first_and_empty && verdict == Verdict::NewVariant && run.real.variant_data(vid).is_none() {
+                run.model.variants.clear();
+                return compare(run);
+            }
             match verdict {
                 Verdict::NewVariant => {
                     if run.vids.contains(&vid) {
